@@ -27,6 +27,7 @@ def run(chk):
     clones.rule_unreachable(chk, 'U1', ('aead',), floor=20, also=r'chacha20|poly')
     clones.rule_insert_ladders(chk, 'N6', ('aead',), floor=100, also=r'ccm|gcm|chacha|poly')
     clones.rule_dup_stores(chk, 'W6', ('aead',), floor=1, also=r'ccm|gcm|chacha|poly')
+    clones.rule_byte_order(chk, 'N7', ('aead',), floor=20, also=r'ccm|gcm|chacha|poly')
     from . import twins
     twins.rule_token_agreement(chk, cf.PROGRAM[0] or cf.Program(), 'K1', floor=150)
     from . import aead
